@@ -507,8 +507,11 @@ func c10prop(r *simkit.Run) {
 			case 1: // add
 				s := servers[rapid.IntRange(0, len(servers)-1).Draw(rt, "add")]
 				if w.model.find(keyOf(mustURL(s))) < 0 {
-					upsert(s, true, drawWeight())
+					// a new server starts with a clean rating; set it before the add so that the bookkeeping done
+					// right after the administration call (are all ratings equal?) sees the ratings as they now are
 					w.rating[keyOf(mustURL(s))] = 0
+					w.notReady[keyOf(mustURL(s))] = false
+					upsert(s, true, drawWeight())
 				}
 			case 2: // remove
 				if len(w.model.m) > 1 {
@@ -517,6 +520,8 @@ func c10prop(r *simkit.Run) {
 						w.fail("remove-failed", "RemoveServer(%s): %v", m.str, err)
 					}
 					w.model.remove(mustURL(m.str))
+					delete(w.rating, m.key)
+					delete(w.notReady, m.key)
 					w.afterAdmin("remove "+m.str, true)
 				}
 			case 3: // an update the balancer refuses (negative weight): must fail and change nothing
